@@ -1,11 +1,11 @@
 """C04 -- triangular solves (layer B: bounded functional checks against spec-side linear algebra; see checks/alg.py)."""
 from vplib.core import with_canaries
-from checks import alg
+from checks import alg, layer_s
 
 LEVEL = "model_checking"
 META = {"explanation": "bounded functional: one concrete (small) shape per group, every bit pattern of the operands; loop bounds found by unwinding refinement and confirmed by unwinding assertions; compared with spec-side linear algebra (contracts/alg_spec.h) that shares no code with the library",
-        "assumptions": ['base cases only (n <= 64 rows of T); Russian and recursive regimes not reached']}
+        "assumptions": ['functional clause: base cases only (order <= 64); the Russian regime is not reached', 'recursive regime: shape / window-containment / header-balance contracts only (layer S, all dimensions symbolic); the algebra of the recursion is not decided', 'contract of _mzd_addmul for cutoff < 64 assumed (call-site form)']}
 
 
 def groups(tier, seed):
-    return with_canaries(alg.c04(tier))
+    return with_canaries(alg.c04(tier)) + with_canaries(layer_s.tri_groups(["C04", "C05", "C09", "C11", "C12"]))
